@@ -380,6 +380,31 @@ def c1210Table : List LockExit :=
    ⟨t!"toolManager.handleCallTool", 3, .none, true⟩, ⟨t!"toolManager.handleCallTool", 4, .none, true⟩,
    ⟨t!"toolManager.handleCallTool", 5, .r, true⟩, ⟨t!"toolManager.handleCallTool", 6, .none, true⟩]
 
+/-! ### the two halves of a registration (`extract/lockset.go`) -/
+
+/-- A register function of a registry with an order slice: number of writes of the order slice, of stores into the map
+    after the first of them, of `return`s between the first order write and the last map store. -/
+structure StorePair where
+  fn : Text
+  orderWrites : Nat
+  mapStores : Nat
+  returnsBetween : Nat
+  sure : Bool
+  deriving Repr, DecidableEq
+
+/-- Order append and map store always happen together (what `Reg.register` models as one step): no way out between them. -/
+def storesBoth (p : StorePair) : Bool :=
+  p.sure && decide (1 ≤ p.orderWrites) && decide (1 ≤ p.mapStores) && p.returnsBetween == 0
+
+/-- The half-registration of seeded change C12-13 as a model step: the key is appended to the order slice (when the map
+    does not have it) and nothing is stored. -/
+def Reg.registerOrderOnly (r : Reg) (k : Key) : Reg :=
+  if k = [] then r else if (lookup r.map k).isSome then r else { r with order := r.order ++ [k] }
+
+def expectedStorePairs : List Text :=
+  [t!"promptManager.registerPrompt", t!"resourceManager.registerResource", t!"resourceManager.registerResources",
+   t!"toolManager.registerTool"]
+
 end Mcp.Registry
 
 /-! ## Part 2 — reader/writer-lock traces -/
